@@ -140,7 +140,10 @@ bool Hist::opRoundTrip(bool cont) {
     log.pre("write"); Outcome so; VF_TRY(so, obj->write(path));
     log.ev("save", "path=" + path.substr(path.rfind('/') + 1) + " shape=" + shapeSig(prev), so); bump("op:save");
     { Snap after = take(*obj); bump("c14_purity_checked"); if (after != prev) { std::vector<std::string> d = diff(prev, after, 4); std::string all; for (size_t i = 0; i < d.size(); ++i) all += d[i] + "; "; log.viol("C14", "save_changed_object", all); prev = after; } }
-    if (so.threw) { if (!wild && !managedEdited && !offSpec && !fileOffSpec && !beyondInt16 && !analogIncomplete) log.viol("C01", "save_threw/" + so.cls, so.what); else bump("c01_save_refused_off_spec"); return true; }
+    // more than 255 blocks of parameters is beyond the format's capacity (the refusal is C17's business); a band of 64 bytes around the boundary is not judged
+    bool beyondBlocks = paramSectionBytes(prev) + 64 > 255 * 512;
+    if (so.threw) { if (!wild && !managedEdited && !offSpec && !fileOffSpec && !beyondInt16 && !analogIncomplete && !beyondBlocks) log.viol("C01", "save_threw/" + so.cls, so.what); else bump("c01_save_refused_off_spec"); return true; }
+    if (rng.chance(40)) loadDecoy();
     std::unique_ptr<ezc3d::c3d> ld; Outcome lo;
     log.pre("load"); VF_TRY(lo, ld.reset(new ezc3d::c3d(path)));
     log.ev("load", "path=" + path.substr(path.rfind('/') + 1), lo); bump("op:load");
@@ -170,6 +173,77 @@ bool Hist::opRoundTrip(bool cont) {
     if (cont) { obj = std::move(ld); prev = take(*obj); callerFrames.clear(); callerFrameTarget.clear(); Outcome none; log.ev("continue_on_loaded", shapeSig(prev), none); bump("op:continue_on_loaded"); }
     if (!o.dumpFinal) unlink(path.c_str());
     return true;
+}
+
+// Before a load: another file of the SAME shape (as many points, channels and sub-frames) but with other names and values is saved and
+// loaded in this process.  What the next load returns must not depend on it (a loader that remembers anything between loads).
+void Hist::loadDecoy() {
+    size_t np = prev.h.nPts, ns = prev.h.sub ? prev.h.sub : 1, nc = ns ? prev.h.nAnalogs / ns : 0;
+    { const SParam* q = prev.param("ANALOG", "USED"); if (q && !q->iv.empty() && q->iv[0] >= 0) nc = (size_t)q->iv[0]; }
+    if (np > 255 || nc > 255) return;
+    std::string dp = savePath("decoy");
+    try {
+        ezc3d::c3d d; { Param r("RATE"); r.set(std::vector<float>(1, 77.f)); d.parameter("POINT", r); } { Param a("RATE"); a.set(std::vector<float>(1, 77.f * (float)ns)); d.parameter("ANALOG", a); }
+        for (size_t i = 0; i < np; ++i) d.point("decoy_p" + std::to_string((unsigned long long)(np - i)));
+        for (size_t i = 0; i < nc; ++i) d.analog("decoy_c" + std::to_string((unsigned long long)(nc - i)));
+        if (np + nc > 0) { Frame f; Points pts; for (size_t i = 0; i < np; ++i) { Point p; p.name("decoy_p" + std::to_string((unsigned long long)(np - i))); p.x(-9.f); p.y(-8.f); p.z(-7.f); p.residual(6.f); pts.point(p); }
+            Analogs an; if (nc) for (size_t q = 0; q < ns; ++q) { SubFrame sf; for (size_t k = 0; k < nc; ++k) { Channel c; c.name("decoy_c" + std::to_string((unsigned long long)(nc - k))); c.data(-5.f); sf.channel(c); } an.subframe(sf); }
+            f.add(pts, an); size_t nfr = prev.frames.empty() ? 1 : std::min<size_t>(prev.frames.size(), 3); for (size_t k = 0; k < nfr; ++k) d.frame(f); }
+        { Param e("EXTRA"); e.set(std::vector<std::string>(2, "decoy")); d.parameter("DECOY", e); }
+        log.pre("write", "decoy"); d.write(dp);
+        log.pre("load", "decoy"); ezc3d::c3d back(dp);
+        bump("c01_decoy_loads");
+    } catch (const std::exception&) { bump("c01_decoy_failed"); }
+    unlink(dp.c_str());
+}
+
+// The stored data are edited IN PLACE through references obtained BEFORE a save (the _nonConst accessors exist for that): the object shows
+// the new values at once and the next save must carry them (nothing may be remembered from the earlier save).
+bool Hist::opRetainedRefEdit() {
+    if (prev.frames.empty()) return false;
+    size_t f = rng.below(prev.frames.size()); const SFrame& F = prev.frames[f];
+    if (F.pts.empty() && (F.subs.empty() || F.subs[0].empty())) return false;
+    Point* pp = 0; Channel* pc = 0; size_t pi = 0, si = 0, ci = 0;
+    try {
+        if (!F.pts.empty()) { pi = rng.below(F.pts.size()); pp = &obj->data().frame(f).points_nonConst().point_nonConst(pi); }
+        if (!F.subs.empty() && !F.subs[0].empty()) { si = rng.below(F.subs.size()); ci = rng.below(F.subs[si].size()); pc = &obj->data().frame(f).analogs_nonConst().subframe_nonConst(si).channel_nonConst(ci); }
+    } catch (const std::exception&) { return false; }
+    std::string p1 = savePath("before_edit");
+    log.pre("write", "before_in_place_edit"); Outcome so; VF_TRY(so, obj->write(p1));
+    uint32_t nb = genFloatBits(rng, false), cb = genFloatBits(rng, false);
+    Snap expect = prev;
+    if (pp) { int comp = rng.range(0, 3); float v = bitsf(nb); if (comp == 0) pp->x(v); else if (comp == 1) pp->y(v); else if (comp == 2) pp->z(v); else pp->residual(v); expect.frames[f].pts[pi].v[comp] = nb; }
+    if (pc) { pc->data(bitsf(cb)); expect.frames[f].subs[si][ci].v = cb; }
+    Outcome none; log.ev("edit_through_retained_reference", "frame=" + std::to_string((unsigned long long)f) + (pp ? " point" : "") + (pc ? " channel" : "") + (so.threw ? " (save before it refused)" : ""), none); bump("op:edit_through_retained_reference");
+    Snap cur = take(*obj);
+    if (cur != expect && !wild) { std::vector<std::string> d = diff(expect, cur, 3); std::string all; for (size_t i = 0; i < d.size(); ++i) all += d[i] + "; "; log.viol("C08", "in_place_edit_not_exactly_applied", "an edit of one stored value through its _nonConst reference: " + all); }
+    prev = cur;
+    unlink(p1.c_str());
+    return opRoundTrip(false);      // the save that follows is judged against the edited object
+}
+
+// 66..125 kB of parameters: the parameter section takes 130..250 blocks (the block count byte above 127, record offsets above 32767)
+bool Hist::opBulkParams() {
+    if (bulkDone || wild) return false;
+    for (size_t g = 0; g < prev.groups.size(); ++g) for (size_t q = 0; q < prev.groups[g].params.size(); ++q) if (prev.groups[g].params[q].fv.size() + prev.groups[g].params[q].iv.size() > 4000) return false;
+    std::vector<std::string> gnames; for (size_t g = 0; g < prev.groups.size(); ++g) if (!prev.groups[g].name.empty()) gnames.push_back(prev.groups[g].name);
+    std::string group = (prev.groups.size() >= 127 || rng.chance(50)) ? "POINT" : freshName("Bulk", gnames);
+    size_t est = paramSectionBytes(prev);
+    int n = rng.range(3, 4); bool any = false;
+    for (int k = 0; k < n; ++k) {
+        if (est + 31000 > 118000) break;      // stay well inside 255 blocks (130 560 bytes)
+        est += 31000;
+        Param p("BULK" + std::to_string(k)); std::vector<size_t> dm; std::string ds;
+        if (rng.chance(60)) { size_t a = (size_t)rng.range(200, 255), b = (size_t)rng.range(25, 30); dm.push_back(a); dm.push_back(b); std::vector<float> v(a * b); for (size_t i = 0; i < v.size(); ++i) v[i] = 0.25f * (float)(i % 9973) - 100.f; p.set(v, dm); ds = "float"; }
+        else { size_t a = (size_t)rng.range(200, 255), b = (size_t)rng.range(50, 60); dm.push_back(a); dm.push_back(b); std::vector<int> v(a * b); for (size_t i = 0; i < v.size(); ++i) v[i] = (int)(i % 60000) - 30000; p.set(v, dm); ds = "int"; }
+        SParam given = takeParam(p);
+        log.pre("parameter", "bulk"); Outcome oc; VF_TRY(oc, obj->parameter(group, p));
+        log.ev("add_bulk_param", "group=\"" + esc(group) + "\" name=" + p.name() + " type=" + ds + " dims=" + dimsToStr(dm), oc); bump("op:add_bulk_param");
+        if (!oc.threw) any = true; else log.viol("C09", "param/valid_refused/add_bulk_param/" + oc.cls, oc.what);
+        afterMutator("add_bulk_param", oc);
+    }
+    bulkDone = true;
+    return any;
 }
 
 // C14 (in-process part): two saves of the same object are byte-identical and do not change it.
@@ -338,14 +412,14 @@ void Hist::run() {
     namedChannels = rng.chance(50);
     std::map<std::string, int> W;
     W["rate_p"] = 6; W["rate_a"] = 6; W["decl_p"] = 10; W["decl_c"] = 8; W["param"] = 8; W["pset"] = 3; W["lock"] = 3; W["append"] = 22; W["replace"] = 7; W["extend"] = 4;
-    W["resubmit"] = 4; W["mutate"] = 4; W["pcol"] = 4; W["ccol"] = 4; W["lookups"] = 5; W["rt"] = 2; W["rtc"] = 2; W["save2"] = 1; W["print"] = 0; W["wildedit"] = wild ? 5 : 0; W["copyout"] = 1; W["rmw"] = 3; W["self"] = 3; W["selfp"] = 2; W["rencopy"] = 2; W["rerate"] = 2; W["badload"] = 1; W["second"] = 1; W["manypts"] = 0;
+    W["resubmit"] = 4; W["mutate"] = 4; W["pcol"] = 4; W["ccol"] = 4; W["lookups"] = 5; W["rt"] = 2; W["rtc"] = 2; W["save2"] = 1; W["print"] = 0; W["wildedit"] = wild ? 5 : 0; W["copyout"] = 1; W["rmw"] = 3; W["self"] = 3; W["selfp"] = 2; W["rencopy"] = 2; W["rerate"] = 2; W["badload"] = 1; W["second"] = 1; W["manypts"] = 0; W["refedit"] = 1; W["bulk"] = 0;
     if (pf == "c06") { W["self"] = 8; W["rmw"] = 10; W["append"] = 25; W["replace"] = 18; W["extend"] = 12; W["pcol"] = 8; W["ccol"] = 8; W["param"] = 2; W["lookups"] = 1; }
     else if (pf == "c07") { W["second"] = 6; W["append"] = 25; W["replace"] = 10; W["extend"] = 6; W["pcol"] = 12; W["ccol"] = 12; W["decl_p"] = 12; W["decl_c"] = 10; W["param"] = 1; W["lookups"] = 0; W["rate_p"] = 8; W["rate_a"] = 8; }
-    else if (pf == "c08") { W["self"] = 8; W["rmw"] = 10; W["resubmit"] = 16; W["mutate"] = 18; W["pcol"] = 8; W["ccol"] = 8; W["copyout"] = 5; W["param"] = 1; W["lookups"] = 0; }
+    else if (pf == "c08") { W["refedit"] = 4; W["self"] = 8; W["rmw"] = 10; W["resubmit"] = 16; W["mutate"] = 18; W["pcol"] = 8; W["ccol"] = 8; W["copyout"] = 5; W["param"] = 1; W["lookups"] = 0; }
     else if (pf == "c09") { W["rencopy"] = 10; W["selfp"] = 8; W["param"] = 40; W["pset"] = 25; W["lock"] = 15; W["append"] = 6; W["lookups"] = 2; W["rtc"] = 3; }
     else if (pf == "c10") { W["manypts"] = 2; W["param"] = 14; W["pset"] = 6; W["lock"] = 6; W["pcol"] = 10; W["ccol"] = 10; }
     else if (pf == "c11") { W["lookups"] = 45; W["decl_p"] = 14; W["decl_c"] = 10; W["param"] = 10; }
-    else if (pf == "c01") { W["rerate"] = 5; W["rencopy"] = 5; W["rt"] = 3; W["rtc"] = 3; W["param"] = 14; W["lookups"] = 1; }
+    else if (pf == "c01") { W["refedit"] = 3; W["bulk"] = 1; W["rerate"] = 5; W["rencopy"] = 5; W["rt"] = 3; W["rtc"] = 3; W["param"] = 14; W["lookups"] = 1; }
     else if (pf == "c13") { W["rencopy"] = 6; W["badload"] = 8; W["selfp"] = 8; W["self"] = 8; W["print"] = 3; W["rt"] = 3; W["rtc"] = 3; W["save2"] = 2; }
     std::vector<std::pair<std::string, int> > ops(W.begin(), W.end());
     int total = 0; for (size_t i = 0; i < ops.size(); ++i) total += ops[i].second;
@@ -381,7 +455,7 @@ void Hist::run() {
         else if (n == "resubmit") ran = opResubmit(); else if (n == "mutate") ran = opMutateCaller();
         else if (n == "pcol") ran = opPointColumn(); else if (n == "ccol") ran = opChannelColumn();
         else if (n == "lookups") ran = opLookups(); else if (n == "rt") ran = opRoundTrip(false); else if (n == "rtc") ran = opRoundTrip(true);
-        else if (n == "save2") ran = opSaveTwice(); else if (n == "print") ran = opPrint(); else if (n == "wildedit") ran = opWildEdit(); else if (n == "copyout") ran = opCopyOut(); else if (n == "rmw") ran = opReadModifyWrite(); else if (n == "self") ran = opSelfFrame(); else if (n == "selfp") ran = opSelfParam(); else if (n == "rencopy") ran = opRenameCopy(); else if (n == "rerate") ran = opReRate(); else if (n == "badload") ran = opFailedLoad(); else if (n == "second") ran = opSecondObject(); else if (n == "manypts") ran = opManyPoints();
+        else if (n == "save2") ran = opSaveTwice(); else if (n == "print") ran = opPrint(); else if (n == "wildedit") ran = opWildEdit(); else if (n == "copyout") ran = opCopyOut(); else if (n == "rmw") ran = opReadModifyWrite(); else if (n == "self") ran = opSelfFrame(); else if (n == "selfp") ran = opSelfParam(); else if (n == "rencopy") ran = opRenameCopy(); else if (n == "rerate") ran = opReRate(); else if (n == "badload") ran = opFailedLoad(); else if (n == "second") ran = opSecondObject(); else if (n == "manypts") ran = opManyPoints(); else if (n == "refedit") ran = opRetainedRefEdit(); else if (n == "bulk") ran = opBulkParams();
         else ran = false;
         if (ran) ++done;
     }
@@ -395,7 +469,7 @@ void Hist::run() {
         Outcome so; VF_TRY(so, obj->write(b));
         snprintf(b, sizeof b, "%s/final_%ld.json", o.out.c_str(), idx);
         writeFileBytes(b, toJson(prev, true));
-        log.line("FINAL %s gaps=%d managedEdited=%d wild=%d offSpec=%d external=%d incomplete=%d", so.threw ? ("save_threw:" + so.cls).c_str() : "saved", hasGapsS(prev) ? 1 : 0, managedEdited ? 1 : 0, wild ? 1 : 0, (offSpec || fileOffSpec || caseVariantNames || beyondInt16) ? 1 : 0, external ? 1 : 0, analogIncomplete ? 1 : 0);
+        log.line("FINAL %s gaps=%d managedEdited=%d wild=%d offSpec=%d external=%d incomplete=%d", so.threw ? ("save_threw:" + so.cls).c_str() : "saved", hasGapsS(prev) ? 1 : 0, managedEdited ? 1 : 0, wild ? 1 : 0, (offSpec || fileOffSpec || caseVariantNames || beyondInt16 || paramSectionBytes(prev) + 64 > 255 * 512) ? 1 : 0, external ? 1 : 0, analogIncomplete ? 1 : 0);
     }
     log.pre("destroy"); obj.reset();       // explicit destruction inside the monitored region
     Outcome none; log.ev("destroy", "", none);
